@@ -14,7 +14,7 @@ exactly when every text piece is ASCII (axioms U1-U3 below relate the two).
 """
 import z3
 
-from driver import Property, Task
+from driver import Bounded, Property, Task
 from pyvc.core import And, Eq, Implies, Not, Or, SBool, SInt, SStr, _t, Outside
 from pyvc.interp import Config, Obj, PyRaise
 from pyvc.loops import AppendOnlyLoop
@@ -309,6 +309,8 @@ def witness_agrees(task, cover, engine, obs):
 
 
 def violates(rp, obs):
+    if rp["obligation"].startswith("bounded."):
+        return bool(obs.get("violated"))
     name = rp["obligation"].split(".", 1)[1]
     if name.startswith("send."):
         name = name[len("send."):]
@@ -329,8 +331,16 @@ for _t_ in TASKS:
     _t_.cover = False  # no path witnesses here (the rest of the body has no unique concrete message); feasibility of
     # every path is still checked branch by branch during exploration
 
+FALLBACK = Bounded(
+    "battery_through_encode_and_send_msg", "c02", {}, {},
+    "16 messages (ASCII / accented / Cyrillic / cp1252-special text at top level, inside a repeating group, in CompIDs and "
+    "in the message type; session and application types; retransmissions; a 300 character value) through the real "
+    "encoder (ASCII ones) and the real send_msg, every frame checked by an independent framing parser",
+    only_when_undecided=True)
+
 PROPERTY = Property(
     "C02", TASKS,
+    bounded=[FALLBACK],
     assumptions=[
         "A-HOM: utf-8 encoding, length and byte / code point sums are homomorphisms over string concatenation (the "
         "engine distributes them over the pieces of the term the real code builds); U1-U3: len(utf8(l)) >= len(l), with "
